@@ -1,0 +1,94 @@
+//go:build verif
+
+// Verification hooks (build tag "verif"): construction of a Receiver from outside the package and
+// read-only observation points. Not compiled into normal builds.
+
+package app
+
+import (
+	"context"
+	"fmt"
+	"net/http"
+	"runtime"
+	"sort"
+)
+
+// VerifNewReceiver builds a receiver and its router like Run does, without flags and listeners.
+func VerifNewReceiver(ctx context.Context, storage, prefix string, tsbdS, nrRaw uint64, cfg *Config) (*Receiver, http.Handler, error) {
+	if cfg == nil {
+		cfg = GetEmptyConfig()
+	}
+	opts := &Options{storage: storage, prefix: prefix, timeShiftBufferDepthS: tsbdS, receiveNrRawSegments: nrRaw}
+	r, err := NewReceiver(ctx, opts, cfg)
+	if err != nil {
+		return nil, nil, err
+	}
+	return r, setupRouter(r, storage, ""), nil
+}
+
+// VerifQuiesce returns when every segment report queued for the channel before the call has been processed
+// completely. The channel has one FIFO consumer and reports for an unknown track are ignored, so two
+// sentinel reports are queued; once the queue is empty the first sentinel has been handled, hence everything before it.
+func (r *Receiver) VerifQuiesce(chName string) bool {
+	ch, ok := r.channelMgr.GetChannel(chName)
+	if !ok {
+		return false
+	}
+	ch.recSegCh <- recSegData{name: "\x00verif-sentinel"}
+	ch.recSegCh <- recSegData{name: "\x00verif-sentinel"}
+	for len(ch.recSegCh) > 0 {
+		runtime.Gosched()
+	}
+	return true
+}
+
+// VerifChState is a read-only snapshot of a channel.
+type VerifChState struct {
+	Token          string // identity of the channel object registered under the name
+	Tracks         []string
+	MasterTrack    string
+	Started        bool
+	LatestSeqNr    uint32
+	WindowSize     uint32
+	MaxNrBufSegs   uint32
+	NrCounters     uint32
+	CountersCap    int
+	BufItems       map[string]uint32
+	BufCap         map[string]int
+	MasterSegDur   uint32
+	MasterTimescal uint32
+}
+
+// VerifChannelState snapshots the channel registered under chName. withTimeline additionally reads the
+// segment-timeline generator, which is owned by the channel goroutine: call it only after VerifQuiesce
+// and not under the race detector.
+func (r *Receiver) VerifChannelState(chName string, withTimeline bool) (VerifChState, bool) {
+	ch, ok := r.channelMgr.GetChannel(chName)
+	if !ok {
+		return VerifChState{}, false
+	}
+	st := VerifChState{Token: fmt.Sprintf("%p", ch), BufItems: map[string]uint32{}, BufCap: map[string]int{}}
+	ch.mu.RLock()
+	for name := range ch.trDatas {
+		st.Tracks = append(st.Tracks, name)
+	}
+	st.MasterTrack = ch.masterTrName
+	st.MasterSegDur = ch.masterSegDuration
+	st.MasterTimescal = ch.masterTimescale
+	ch.mu.RUnlock()
+	sort.Strings(st.Tracks)
+	if withTimeline {
+		sg := ch.segTimesGen
+		st.Started = sg._started
+		st.LatestSeqNr = sg.latestSeqNr
+		st.WindowSize = sg.windowSize
+		st.MaxNrBufSegs = ch.maxNrBufSegs
+		st.NrCounters = sg.counters._nrCounters
+		st.CountersCap = len(sg.counters.counters)
+		for name, b := range sg.segDataBuffers {
+			st.BufItems[name] = b.nrItems()
+			st.BufCap[name] = len(b.items)
+		}
+	}
+	return st, true
+}
